@@ -145,6 +145,7 @@ class SimNet:
         self.sleeps = []
         self.log = []  # flat list of (what, ...) in global order, for sequential modules
         self.yield_hook = None  # threads: called before an op is resolved
+        self.waiter_factory = None  # trio: what an operation's caller is parked on
 
     # ---- op creation ------------------------------------------------------
     def new_op(self, kind, sid, **args):
@@ -340,6 +341,14 @@ class AsyncSimStream(AsyncNetworkStream):
         self._layer = layer
 
     async def _run(self, op):
+        if self._net.waiter_factory is not None:  # trio
+            fut = self._net.waiter_factory()
+            op.fut = fut
+            try:
+                return await fut.wait()
+            finally:
+                if op.state == "pending":
+                    self._net.drop(op)
         import asyncio
 
         fut = asyncio.get_running_loop().create_future()
@@ -399,6 +408,14 @@ class AsyncSimBackend(AsyncNetworkBackend):
         self.net = net
 
     async def _run(self, op):
+        if self.net.waiter_factory is not None:  # trio
+            fut = self.net.waiter_factory()
+            op.fut = fut
+            try:
+                return await fut.wait()
+            finally:
+                if op.state == "pending":
+                    self.net.drop(op)
         import asyncio
 
         fut = asyncio.get_running_loop().create_future()
